@@ -1,7 +1,8 @@
 #!/usr/bin/env python3
 """seed_meta.py <seed id> <broken property> <what the change needs to manifest>
 writes /verif/seeded/<id>/meta.json from the check_output.txt that tools/seed_eval.sh left there"""
-import sys, re, json, os
+import sys, re, json, os, subprocess
+HEAD = subprocess.run(['git','-C',os.environ.get('SFX_REPO','/repo'),'rev-parse','--short','HEAD'],capture_output=True,text=True).stdout.strip()
 
 sid, prop, needs = sys.argv[1], sys.argv[2], sys.argv[3]
 d = f'/verif/seeded/{sid}'
@@ -29,7 +30,7 @@ for line in txt.splitlines():
             c['example_replay_lines'].append(line[:260])
 meta = dict(
     id=sid, breaks_property=prop,
-    produced_by='fresh sub-agent given only the property text and a scratch worktree of /repo (HEAD fcf22ad)',
+    produced_by='fresh sub-agent given only the property text and a scratch worktree of /repo (HEAD ' + HEAD + ')',
     confirm_output=(open(f'{d}/confirm_output.txt').read().splitlines() if os.path.exists(f'{d}/confirm_output.txt') else None),
     needs_to_manifest=needs,
     confirmed_by_me=['66 unit tests pass with the change', 'demo fails with the change', 'demo passes without the change'],
